@@ -24,7 +24,8 @@ CHECKS = {
  "C03": (PBT + "; exact language comparison of every operation result with the reference construction",
          "Pairs of (mostly nondeterministic, epsilon) automata sharing state names, alphabets equal/overlapping/disjoint: intersection, complement "
          "(own alphabet), difference, reversal, union, concatenation, star and the operator forms are extracted and compared exactly with the reference "
-         "constructions. Exploration.",
+         "constructions. Thorough tier also enumerates all ordered pairs of the 256 two-state NFAs over {a} and every two-state epsilon-NFA over "
+         "{a,b,eps} against a fixed partner. Exploration.",
          "Trusts vlib/ref_fa.py; union/concatenate/kleene_star only on plain-token symbols (they go through to_regex).",
          "DESIGN.md section 4, C03"),
  "C04": (PBT + "; exhaustive small-scope enumeration",
@@ -81,7 +82,8 @@ CHECKS = {
          "Trusts vlib/ref_pda.py (self-checked against brute force in every case) and vlib/ref_cfg.py; string-valued grammar symbols for to_pda.",
          "DESIGN.md section 4, C13"),
  "C14": (PBT + " (textbook FIRST/FOLLOW/PREDICT reference; parser judged by membership oracle and tree validity predicate)",
-         "Useful-symbol grammars (random reduced grammars and LL(1)-like constructions with nullable variables, nullable non-empty bodies, left recursion): "
+         "Useful-symbol grammars (random reduced grammars, LL(1)-like constructions with nullable variables, nullable non-empty bodies, left recursion, layered "
+         "'cascade' grammars of up to 6 variables, a terminal valued '$'; parser built on a fresh and on an already queried grammar object): "
          "FIRST and FOLLOW per variable, the LL(1) verdict, and for LL(1) grammars get_llone_parse_tree on all words <=3 (+foreign), members of length 4 and "
          "their extensions returns a valid tree iff member and raises only NotParsableException. Exploration.",
          "Trusts vlib/ref_cfg.py FIRST/FOLLOW/PREDICT and bounded languages.",
@@ -97,17 +99,18 @@ CHECKS = {
          "get_words(n) has no duplicate, only lists of Terminal and equals the bounded language; unbounded get_words() on finite languages. Exploration.",
          "Trusts vlib/ref_cfg.py; unbounded enumeration only when the longest word has length <=7.",
          "DESIGN.md section 4, C12"),
- "C06": (PBT + "; round trip to_regex -> to_epsilon_nfa compared exactly with the reference automaton",
-         "Epsilon-NFAs over plain-token symbols with 0-3 start states, 0-3 finals, loops, epsilon edges under 16 hash seeds (elimination order): "
+ "C06": (PBT + "; exhaustive small-scope enumeration; round trip to_regex -> to_epsilon_nfa compared exactly with the reference automaton",
+         "Epsilon-NFAs over plain-token symbols (and the integers 0-2 read through str()) with 0-3 start states, 0-3 finals, loops, epsilon edges under 16 hash seeds (elimination order): "
          "the epsilon-NFA of to_regex() is extracted and compared exactly with the reference automaton; Regex.accepts agrees on all words <=3; "
-         "any exception is a failure. Exploration.",
+         "any exception is a failure. Every 2-state epsilon-NFA over {a,eps} is enumerated (thorough: over {a,b,eps}, plus every 3-state elimination "
+         "pattern over {a,eps}). Exploration.",
          "Reads the language of the returned Regex through Regex.to_epsilon_nfa/accepts, which C05 judges separately.",
          "DESIGN.md section 4, C06"),
  "C16": (PBT + " (reference transduction relation by BFS; extracted results evaluated by the reference)",
          "Pairs of transducers sharing (colliding) state names, several start/final states, epsilon-input moves, non-writing epsilon cycles: "
          "set(translate(w)) equals the reference output set for all inputs <=3 (+foreign symbol); union / concatenate / kleene_star (| +) are extracted "
          "and their reference relation equals the union / pairwise concatenation / star of the operand relations; to_fst() is the identity on the "
-         "accepted words. Exploration.",
+         "accepted words. Thorough tier also enumerates all 57344 two-state transducers over a|eps / []|[x] in the domain. Exploration.",
          "Trusts vlib/ref_fst.py; epsilon cycles write nothing (property domain); output-length guard when evaluating library-produced machines.",
          "DESIGN.md section 4, C16"),
  "C17": (PBT + " (reference emptiness by function-table fixpoint, cross-checked per case by bounded brute-force derivation search)",
@@ -120,7 +123,7 @@ CHECKS = {
  "C18": (PBT + " (union-find graph unification; ground instantiation of feature grammars into a plain CFG)",
          "Pairs of consistently typed feature structures with re-entrancy: unify succeeds iff the reference finds no clash, the receiver then has exactly "
          "the reference paths, values and sharing partition, argument order does not matter, a clash raises FeatureStructuresNotCompatibleException. "
-         "Feature grammars in text form (constants, variables, omitted features, epsilon productions, left recursion, same-skeleton productions, | "
+         "Feature grammars in text form or built through the constructors with falsy / mixed values (constants, variables, omitted features, epsilon productions, left recursion, same-skeleton productions, | "
          "alternatives): contains(w) on all words <=4 equals membership in the ground instantiation; feature-free grammars agree with CFG.contains. Exploration.",
          "Trusts vlib/ref_fs.py; one value domain {u,v} for all features; structures of depth <=3.",
          "DESIGN.md section 4, C18"),
@@ -130,7 +133,7 @@ CHECKS = {
          "rebuilt from its recipe, and no operand's structural snapshot may change. The shrunk history (JSON) is replayed by a plain interpreter without "
          "Hypothesis. One genuine defect stays open (F19d: the result of IndexedGrammar.intersection cannot be intersected again). Exploration: histories "
          "are sampled.",
-         "The rebuilt twin is the 'freshly built equal object'; identity results (dfa.to_deterministic() is dfa) are modelled as aliases.",
+         "The rebuilt twin is the 'freshly built equal object'; the specified identity result (dfa.to_deterministic() is dfa) is modelled as an alias; any other operation returning a mutable operand is tested by mutating the result.",
          "DESIGN.md section 4, C19"),
  "C20": (PBT + " (structural round-trip equality on extracted descriptions; exact language equality for recursive-automaton boxes)",
          "Automata, PDAs and transducers over JSON-representable values (odd strings, floats, names like starting_q / INITIAL_STACK_HIDDEN, isolated "
